@@ -64,6 +64,12 @@ def commonLabel : List Bool → List Bool → List Bool
   | a :: (a' :: as), b :: bs => if a = b then a :: commonLabel (a' :: as) bs else []
   | _ :: _ :: _, [] => []   -- reading past the last key: Go returns an error; unreachable for equal-length keys
 
+/-- the label of an interior node: derived from the first key and the LAST key of the list -/
+def edgeLabel {α} (k0 : List Bool) (kvs : List (List Bool × α)) : List Bool :=
+  match kvs.getLast? with
+  | some (kl, _) => commonLabel k0 kl
+  | none => []
+
 /-- bits written by `encodeLabel` for a label within a key space of `keySize` bits -/
 def labelBits (label : List Bool) (keySize : Nat) : List Bool :=
   if label.length < 8 then
@@ -83,9 +89,7 @@ def encodeMap (writeVal : CellB → α → Outcome CellB) : (fuel : Nat) → Lis
       let b ← writeVal b v
       pure b.toCell
     | (k0, _) :: _ :: _ => do
-      let label := match kvs.getLast? with
-        | some (kl, _) => commonLabel k0 kl
-        | none => []
+      let label := edgeLabel k0 kvs
       let b ← CellB.empty.write (labelBits label keySize)
       let n := label.length
       let left := kvs.filterMap fun (k, v) => if (k.drop n).head? = some false then some (k.drop (n + 1), v) else none
